@@ -452,7 +452,7 @@ static Json minimise(Engine &engine, Json cse, const std::string &vclass,
     Outcome o = run_in_child(engine, cse, timeout);
     ++attempts;
     if (same_violation(o, vclass, known, was_known) &&
-        o.executed.size() < 300000) {
+        o.executed.size() < 20000) {
       Sched s = Sched::from_json(cse.at(sk));
       Sched r = s;
       r.policy = POL_REPLAY;
@@ -557,6 +557,18 @@ int check_main(int argc, char **argv, Engine &engine) {
     Outcome o = engine.execute(c.has("case") ? c.at("case") : c);
     printf("%s\n", outcome_to_json(o, false).dump(1).c_str());
     return o.vclass.empty() ? 0 : 1;
+  }
+  if (mode == "--gen") { // print the generated case with the given index
+    uint64_t sd = 20260927ull;
+    if (const char *e = getenv("VERIF_SEED"))
+      sd = strtoull(e, nullptr, 0);
+    const uint64_t idx = strtoull(argv[2], nullptr, 0);
+    std::string tr = argc > 3 ? argv[3] : "quick";
+    std::vector< Json > dir = engine.directed(tr);
+    Json c = idx < dir.size() ? dir[idx]
+                              : engine.generate(mix64(sd, idx), tr, idx);
+    printf("%s\n", c.dump(1).c_str());
+    return 0;
   }
   const char *tenv = getenv("VERIF_TIER");
   std::string tier = (mode == "quick" || mode == "thorough")
@@ -764,6 +776,10 @@ int check_main(int argc, char **argv, Engine &engine) {
   const int timeout = engine.watchdog_seconds();
   const double min_time = tier == "quick" ? 60. : 300.;
   int processed = 0;
+  for (auto &g : groups)
+    printf("candidate: class=%s runs=%llu first_index=%llu: %s\n",
+           g.second.vclass.c_str(), (unsigned long long)group_counts[g.first],
+           (unsigned long long)g.second.index, g.second.message.c_str());
   for (auto &g : groups) {
     const Violation &v = g.second;
     Json cse = make_case(engine, b, v.index);
